@@ -349,53 +349,86 @@ def _tracker(ctx) -> None:
     ctx.ob("d.tracker", f, "refusal-condition", not problems,
            "AliasError iff at least 2 live referents remain after pruning dead weak references",
            raises[0].ast if raises else f.node, message="; ".join(problems))
-    # register: at most one reference per object, appended to the list stored under the id
+    # register: at most one reference per object, appended to the list stored under the id (decided on the symx event log)
+    from ..symx import Interp as SInterp
+    from ..symx import NONE as SNONE
+    from ..symx import elements, flatten_conds, show, show_conds, single_element, subterms
     f = prog.func("alias_tracker._AliasTracker.register")
+    it = SInterp(prog, f)
+    S, vec, tid = ("param", f.params[0]), ("param", f.params[1]), ("param", f.params[2])
+    reg = ("attr", S, "_registry")
     problems = []
-    vec, tid = f.params[1], f.params[2]
-    apps = [n for n in walk_no_nested(f.node) if isinstance(n, ast.Call) and isinstance(n.func, ast.Attribute)
-            and n.func.attr == "append"]
-    if len(apps) != 1 or short(apps[0].args[0]) != f"weakref.ref({vec})":
+    apps = [e for e in it.events if e.kind == "call" and e.term[1][0] == "attr" and e.term[1][2] == "append"]
+    wr = ("call", ("attr", ("name", "weakref"), "ref"), (vec,), ())
+    if len(apps) != 1 or apps[0].term[2] != (wr,):
         problems.append("register does not append exactly one weakref.ref(vec)")
     else:
-        lst = apps[0].func.value
-        stores = [s for s in walk_stmts(f.body) if isinstance(s, ast.Assign) and isinstance(s.targets[0], ast.Subscript)
-                  and short(s.targets[0]) == f"self._registry[{tid}]"]
-        if not (isinstance(lst, ast.Name) and any(isinstance(s.value, ast.Name) and s.value.id == lst.id for s in stores)):
-            problems.append(f"the list receiving the new reference (`{short(lst)}`) is not the one stored under the id")
-    dup_guard = False
-    for s in walk_stmts(f.body):
-        if isinstance(s, ast.For) and isinstance(s.target, ast.Name):
-            r = s.target.id
-            for x in walk_stmts(s.body):
-                if isinstance(x, ast.If) and short(x.test) in (f"{r}() is {vec}", f"{vec} is {r}()") \
-                        and any(isinstance(b, ast.Return) for b in x.body):
+        a = apps[0]
+        lst = a.term[1][1]
+        stores = [e for e in it.events if e.kind == "store" and e.term == ("sub", reg, tid)]
+        direct = lst[0] == "call" and lst[1] == ("attr", reg, "setdefault") and lst[2] and lst[2][0] == tid
+        if not direct and not any(e.value == lst and not e.conds[len(a.conds):] for e in stores):
+            problems.append(f"the list receiving the new reference (`{show(lst, it)[:50]}`) is not the one stored under the id")
+
+        def is_self_test(t) -> bool:
+            return t[0] == "cmp" and t[1] == "Is" and vec in (t[2], t[3]) and \
+                any(x[0] == "call" and x[1][0] == "elem" and not x[2] for x in (t[2], t[3]))
+        dup_guard = False
+        # (A) a scan of the list that returns when the object is found, before the append
+        for lp in it.loops.values():
+            if lp.iter == lst and lp.returns:
+                for rc in lp.returns:
+                    inside = flatten_conds(rc[len(lp.conds):])
+                    if len(inside) == 1 and inside[0][1] and is_self_test(inside[0][0]) and inside[0][0][2][1][1] == lst:
+                        first_ev = min((e.seq for e in it.events if lp.id in e.loops), default=0)
+                        if first_ev < a.seq:
+                            dup_guard = True
+        # (B) the append happens only if no element of the list is the object: not any(r() is vec for r in lst)
+        for t, pol in flatten_conds(a.conds):
+            if t[0] == "call" and t[1] == ("name", "any") and len(t[2]) == 1 and not pol and t[2][0][0] == "obj":
+                se = single_element(it, t[2][0])
+                if se is not None and len(se[0]) == 1 and it.loops[se[0][0]].iter == lst and not se[1] and is_self_test(se[2]):
                     dup_guard = True
-    if not dup_guard:
-        problems.append("register can add a second reference for an object that is already listed")
+        if not dup_guard:
+            problems.append("register can add a second reference for an object that is already listed")
     ctx.ob("d.tracker", f, "register", not problems, "register adds one weak reference unless already listed", f.node,
            message="; ".join(problems))
     # unregister: keeps exactly the other live references, deletes the entry when none
     f = prog.func("alias_tracker._AliasTracker.unregister")
+    it = SInterp(prog, f)
+    S, vec, tid = ("param", f.params[0]), ("param", f.params[1]), ("param", f.params[2])
+    reg = ("attr", S, "_registry")
     problems = []
-    vec, tid = f.params[1], f.params[2]
-    dels = [s for s in walk_stmts(f.body) if isinstance(s, ast.Delete) and short(s.targets[0]) == f"self._registry[{tid}]"]
+    dels = [e for e in it.events if e.kind == "del" and e.term == ("sub", reg, tid)]
+    stores = [e for e in it.events if e.kind == "store" and e.term == ("sub", reg, tid)]
     if not dels:
         problems.append("unregister never deletes an emptied entry")
-    keep = [n for n in walk_no_nested(f.node) if isinstance(n, ast.Call) and isinstance(n.func, ast.Attribute)
-            and n.func.attr == "append"]
-    loop = [s for s in walk_stmts(f.body) if isinstance(s, ast.For)]
-    if len(loop) != 1 or len(keep) != 1:
-        problems.append("unregister: filter loop not recognised")
+    if len(stores) != 1 or stores[0].value[0] != "obj":
+        problems.append("unregister: the kept references are not stored back as a new list")
     else:
-        conts = [x for x in walk_stmts(loop[0].body) if isinstance(x, ast.If) and any(isinstance(b, ast.Continue) for b in x.body)]
-        rv = loop[0].target.id if isinstance(loop[0].target, ast.Name) else "?"
-        objs = [s2.targets[0].id for s2 in loop[0].body if isinstance(s2, ast.Assign) and isinstance(s2.targets[0], ast.Name)
-                and short(s2.value) == f"{rv}()"]
-        ov = objs[0] if objs else f"{rv}()"
-        tests = sorted(short(x.test) for x in conts)
-        if tests != sorted([f"{ov} is None", f"{ov} is {vec}"]):
-            problems.append(f"unregister drops references under {tests}, expected exactly the dead ones and the object's own")
+        keep = stores[0].value
+        se = single_element(it, keep)
+        if se is None or len(se[0]) != 1:
+            problems.append("unregister: filter loop not recognised")
+        else:
+            (L,), extra, val, ev = se
+            lp = it.loops[L]
+            src = lp.iter
+            ok_src = src is not None and any(x == reg for x in subterms(src)) and any(x == tid for x in subterms(src))
+            if not ok_src:
+                problems.append(f"unregister filters `{show(src, it)[:40]}`, not the references stored under the id")
+            if val != ("elem", src, L):
+                problems.append("unregister keeps something other than the stored references themselves")
+            obj = ("call", ("elem", src, L), (), ())
+            got = sorted(map(repr, flatten_conds(extra)))
+            want = sorted(map(repr, [(("cmp", "Is", obj, SNONE), False), (("cmp", "Is", obj, vec), False)]))
+            if got != want:
+                problems.append(f"unregister keeps references under `{show_conds(flatten_conds(extra), it)[:90]}`, expected exactly the live "
+                                f"ones that are not the object's own (drops exactly the dead ones and the object's own)")
+            sc = flatten_conds(stores[0].conds)
+            dc = flatten_conds(dels[0].conds) if dels else []
+            if (keep, True) not in sc or (dels and (keep, False) not in dc):
+                problems.append("the entry is not deleted exactly when no reference remains")
     ctx.ob("d.tracker", f, "unregister", not problems, "unregister keeps exactly the other live references", f.node,
            message="; ".join(problems))
 
